@@ -1,0 +1,422 @@
+//! Verification hooks for the object-store server (compiled only with
+//! `--cfg gothenburgbitfactory_taskchampion_verif`; nothing here exists in a normal build).
+//!
+//! * `MemStore` / `MemService`: an in-memory object store implementing the private `Service`
+//!   trait. Every request (and every list page) first passes through an optional gate supplied by
+//!   the verification harness, which may let it proceed, fail it before it takes effect, or let it
+//!   take effect and then fail. Creation times come from a controllable clock; raw access and a
+//!   request log are provided for audits.
+//! * `CloudHandle`: a `CloudServer` over a `MemService`, exposing `cleanup` and able to share an
+//!   already derived key.
+//! * a thread-local replacement for the random draw behind cleanup / snapshot urgency.
+
+use super::super::iter::AsyncObjectIterator;
+use super::super::service::{ObjectInfo, Service};
+use super::{CloudServer, DEFAULT_CLEANUP_PROBABILITY};
+use crate::errors::{Error, Result};
+use crate::server::{
+    AddVersionResult, GetVersionResult, HistorySegment, Server, Snapshot, SnapshotUrgency,
+    VersionId,
+};
+use async_trait::async_trait;
+use std::cell::RefCell;
+use std::collections::BTreeMap;
+use std::future::Future;
+use std::pin::Pin;
+use std::sync::{Arc, Mutex};
+
+#[derive(Clone, Copy, Debug, PartialEq, Eq)]
+pub enum GateOp {
+    Get,
+    Put,
+    Del,
+    Cas,
+    ListPage,
+}
+
+#[derive(Clone, Debug)]
+pub struct GateEvent {
+    pub client: u32,
+    pub op: GateOp,
+    pub name: String,
+}
+
+#[derive(Clone, Copy, Debug, PartialEq, Eq)]
+pub enum GateDecision {
+    Proceed,
+    /// return an error without performing the request
+    FailBefore,
+    /// perform the request, then return an error
+    FailAfter,
+}
+
+pub type GateFn =
+    Arc<dyn Fn(GateEvent) -> Pin<Box<dyn Future<Output = GateDecision> + Send>> + Send + Sync>;
+
+#[derive(Clone, Debug)]
+pub struct LogEntry {
+    pub seq: u64,
+    pub client: u32,
+    pub op: GateOp,
+    pub name: String,
+    /// "ok", "miss", "cas-true", "cas-false", "fail-before", "fail-after", "page:<n>"
+    pub outcome: String,
+    /// content of "latest" right after this request
+    pub latest_after: Option<Vec<u8>>,
+}
+
+#[derive(Default)]
+struct StoreInner {
+    objects: BTreeMap<String, (u64, Vec<u8>)>,
+    clock: u64,
+    log: Vec<LogEntry>,
+    seq: u64,
+}
+
+/// The shared object store.
+#[derive(Clone, Default)]
+pub struct MemStore(Arc<Mutex<StoreInner>>);
+
+impl MemStore {
+    pub fn new() -> Self {
+        Self::default()
+    }
+    /// Creation time (seconds since the epoch) stamped on objects written from now on.
+    pub fn set_clock(&self, secs: u64) {
+        self.0.lock().unwrap().clock = secs;
+    }
+    pub fn get_raw(&self, name: &str) -> Option<(u64, Vec<u8>)> {
+        self.0.lock().unwrap().objects.get(name).cloned()
+    }
+    pub fn put_raw(&self, name: &str, creation: u64, value: Vec<u8>) {
+        self.0
+            .lock()
+            .unwrap()
+            .objects
+            .insert(name.to_string(), (creation, value));
+    }
+    pub fn del_raw(&self, name: &str) -> bool {
+        self.0.lock().unwrap().objects.remove(name).is_some()
+    }
+    pub fn names(&self) -> Vec<String> {
+        self.0.lock().unwrap().objects.keys().cloned().collect()
+    }
+    pub fn log(&self) -> Vec<LogEntry> {
+        self.0.lock().unwrap().log.clone()
+    }
+    pub fn log_len(&self) -> usize {
+        self.0.lock().unwrap().log.len()
+    }
+    fn record(&self, client: u32, op: GateOp, name: &str, outcome: String) {
+        let mut s = self.0.lock().unwrap();
+        s.seq += 1;
+        let seq = s.seq;
+        let latest_after = s.objects.get("latest").map(|o| o.1.clone());
+        s.log.push(LogEntry {
+            seq,
+            client,
+            op,
+            name: name.to_string(),
+            outcome,
+            latest_after,
+        });
+    }
+}
+
+fn injected(what: &str) -> Error {
+    Error::Server(format!("verif: injected object-store fault ({what})"))
+}
+
+/// One client's view of the store.
+pub struct MemService {
+    store: MemStore,
+    client: u32,
+    gate: Option<GateFn>,
+    page_size: usize,
+}
+
+impl MemService {
+    pub fn new(store: MemStore, client: u32, gate: Option<GateFn>, page_size: usize) -> Self {
+        Self {
+            store,
+            client,
+            gate,
+            page_size: page_size.max(1),
+        }
+    }
+
+    async fn pass(&self, op: GateOp, name: &str) -> GateDecision {
+        match &self.gate {
+            Some(g) => {
+                g(GateEvent {
+                    client: self.client,
+                    op,
+                    name: name.to_string(),
+                })
+                .await
+            }
+            None => GateDecision::Proceed,
+        }
+    }
+}
+
+#[async_trait]
+impl Service for MemService {
+    async fn put(&mut self, name: &str, value: &[u8]) -> Result<()> {
+        let d = self.pass(GateOp::Put, name).await;
+        if d == GateDecision::FailBefore {
+            self.store
+                .record(self.client, GateOp::Put, name, "fail-before".into());
+            return Err(injected("put"));
+        }
+        {
+            let mut s = self.store.0.lock().unwrap();
+            let clock = s.clock;
+            s.objects.insert(name.to_string(), (clock, value.to_vec()));
+        }
+        if d == GateDecision::FailAfter {
+            self.store
+                .record(self.client, GateOp::Put, name, "fail-after".into());
+            return Err(injected("put, after effect"));
+        }
+        self.store
+            .record(self.client, GateOp::Put, name, "ok".into());
+        Ok(())
+    }
+
+    async fn get(&mut self, name: &str) -> Result<Option<Vec<u8>>> {
+        let d = self.pass(GateOp::Get, name).await;
+        if d != GateDecision::Proceed {
+            self.store
+                .record(self.client, GateOp::Get, name, "fail-before".into());
+            return Err(injected("get"));
+        }
+        let v = self
+            .store
+            .0
+            .lock()
+            .unwrap()
+            .objects
+            .get(name)
+            .map(|o| o.1.clone());
+        self.store.record(
+            self.client,
+            GateOp::Get,
+            name,
+            if v.is_some() { "ok" } else { "miss" }.into(),
+        );
+        Ok(v)
+    }
+
+    async fn del(&mut self, name: &str) -> Result<()> {
+        let d = self.pass(GateOp::Del, name).await;
+        if d == GateDecision::FailBefore {
+            self.store
+                .record(self.client, GateOp::Del, name, "fail-before".into());
+            return Err(injected("del"));
+        }
+        let existed = self.store.0.lock().unwrap().objects.remove(name).is_some();
+        if d == GateDecision::FailAfter {
+            self.store
+                .record(self.client, GateOp::Del, name, "fail-after".into());
+            return Err(injected("del, after effect"));
+        }
+        self.store.record(
+            self.client,
+            GateOp::Del,
+            name,
+            if existed { "ok" } else { "miss" }.into(),
+        );
+        Ok(())
+    }
+
+    async fn list<'a>(&'a mut self, prefix: &'a str) -> Box<dyn AsyncObjectIterator + Send + 'a> {
+        Box::new(MemIter {
+            store: self.store.clone(),
+            client: self.client,
+            gate: self.gate.clone(),
+            prefix: prefix.to_string(),
+            cursor: None,
+            buffer: Vec::new(),
+            page_size: self.page_size,
+            done: false,
+        })
+    }
+
+    async fn compare_and_swap(
+        &mut self,
+        name: &str,
+        existing_value: Option<Vec<u8>>,
+        new_value: Vec<u8>,
+    ) -> Result<bool> {
+        let d = self.pass(GateOp::Cas, name).await;
+        if d == GateDecision::FailBefore {
+            self.store
+                .record(self.client, GateOp::Cas, name, "fail-before".into());
+            return Err(injected("compare_and_swap"));
+        }
+        let swapped = {
+            let mut s = self.store.0.lock().unwrap();
+            let cur = s.objects.get(name).map(|o| o.1.clone());
+            if cur == existing_value {
+                let clock = s.clock;
+                s.objects.insert(name.to_string(), (clock, new_value));
+                true
+            } else {
+                false
+            }
+        };
+        if d == GateDecision::FailAfter {
+            self.store
+                .record(self.client, GateOp::Cas, name, "fail-after".into());
+            return Err(injected("compare_and_swap, after effect"));
+        }
+        self.store.record(
+            self.client,
+            GateOp::Cas,
+            name,
+            if swapped { "cas-true" } else { "cas-false" }.into(),
+        );
+        Ok(swapped)
+    }
+}
+
+/// Listing in pages: each page is fetched from the *current* contents (as real services do),
+/// after passing the gate.
+struct MemIter {
+    store: MemStore,
+    client: u32,
+    gate: Option<GateFn>,
+    prefix: String,
+    cursor: Option<String>,
+    buffer: Vec<ObjectInfo>,
+    page_size: usize,
+    done: bool,
+}
+
+#[async_trait]
+impl AsyncObjectIterator for MemIter {
+    async fn next(&mut self) -> Option<Result<ObjectInfo>> {
+        if self.buffer.is_empty() && !self.done {
+            let d = match &self.gate {
+                Some(g) => {
+                    g(GateEvent {
+                        client: self.client,
+                        op: GateOp::ListPage,
+                        name: self.prefix.clone(),
+                    })
+                    .await
+                }
+                None => GateDecision::Proceed,
+            };
+            if d != GateDecision::Proceed {
+                self.done = true;
+                self.store.record(
+                    self.client,
+                    GateOp::ListPage,
+                    &self.prefix,
+                    "fail-before".into(),
+                );
+                return Some(Err(injected("list page")));
+            }
+            let page: Vec<ObjectInfo> = {
+                let s = self.store.0.lock().unwrap();
+                s.objects
+                    .iter()
+                    .filter(|(n, _)| n.starts_with(&self.prefix))
+                    .filter(|(n, _)| match &self.cursor {
+                        Some(c) => n.as_str() > c.as_str(),
+                        None => true,
+                    })
+                    .take(self.page_size)
+                    .map(|(n, (creation, _))| ObjectInfo {
+                        name: n.clone(),
+                        creation: *creation,
+                    })
+                    .collect()
+            };
+            self.store.record(
+                self.client,
+                GateOp::ListPage,
+                &self.prefix,
+                format!("page:{}", page.len()),
+            );
+            if page.len() < self.page_size {
+                self.done = true;
+            }
+            if let Some(last) = page.last() {
+                self.cursor = Some(last.name.clone());
+            }
+            // keep in reverse so that pop() yields them in order
+            self.buffer = page.into_iter().rev().collect();
+        }
+        self.buffer.pop().map(Ok)
+    }
+}
+
+/// A `CloudServer` over the in-memory store.
+pub struct CloudHandle(CloudServer<MemService>);
+
+impl CloudHandle {
+    /// The real constructor path (salt creation race + key derivation).
+    pub async fn new(service: MemService, encryption_secret: Vec<u8>) -> Result<Self> {
+        Ok(Self(CloudServer::new(service, encryption_secret).await?))
+    }
+
+    /// A second handle on the same store, re-using the key `other` already derived.
+    pub fn with_key_of(other: &CloudHandle, service: MemService) -> Self {
+        Self(CloudServer {
+            service,
+            cryptor: other.0.cryptor.clone(),
+            cleanup_probability: DEFAULT_CLEANUP_PROBABILITY,
+            #[cfg(test)]
+            add_version_intercept: None,
+        })
+    }
+
+    /// Run cleanup now.
+    pub async fn cleanup(&mut self) -> Result<()> {
+        self.0.cleanup().await
+    }
+
+    pub fn cleanup_probability(&self) -> u8 {
+        self.0.cleanup_probability
+    }
+}
+
+#[async_trait(?Send)]
+impl Server for CloudHandle {
+    async fn add_version(
+        &mut self,
+        parent_version_id: VersionId,
+        history_segment: HistorySegment,
+    ) -> Result<(AddVersionResult, SnapshotUrgency)> {
+        self.0.add_version(parent_version_id, history_segment).await
+    }
+    async fn get_child_version(
+        &mut self,
+        parent_version_id: VersionId,
+    ) -> Result<GetVersionResult> {
+        self.0.get_child_version(parent_version_id).await
+    }
+    async fn add_snapshot(&mut self, version_id: VersionId, snapshot: Snapshot) -> Result<()> {
+        self.0.add_snapshot(version_id, snapshot).await
+    }
+    async fn get_snapshot(&mut self) -> Result<Option<(VersionId, Snapshot)>> {
+        self.0.get_snapshot().await
+    }
+}
+
+thread_local! {
+    static DRAWS: RefCell<Option<Box<dyn FnMut() -> Option<u8>>>> = const { RefCell::new(None) };
+}
+
+/// Replace the random draw behind cleanup / snapshot urgency on this thread. The source may
+/// return `None` to fall back to the system random number generator for one draw.
+pub fn set_random_source(f: Option<Box<dyn FnMut() -> Option<u8>>>) {
+    DRAWS.with(|d| *d.borrow_mut() = f);
+}
+
+pub(in crate::server) fn next_draw() -> Option<u8> {
+    DRAWS.with(|d| d.borrow_mut().as_mut().and_then(|f| f()))
+}
